@@ -1037,7 +1037,7 @@ def _mini_eval(fn: ast.FunctionDef, env: dict, allowed_calls: set[str], max_step
         for st in body:
             steps += 1
             if steps > max_steps:
-                raise EvalError("too many steps")
+                raise Crash("does not terminate within the step bound (too many steps)")
             if isinstance(st, ast.Expr):
                 if isinstance(st.value, ast.Constant):
                     continue
@@ -1087,7 +1087,7 @@ def _mini_eval(fn: ast.FunctionDef, env: dict, allowed_calls: set[str], max_step
                 while ev(st.test):
                     steps += 1
                     if steps > max_steps:
-                        raise EvalError("too many steps")
+                        raise Crash("does not terminate within the step bound (too many steps)")
                     try:
                         run(st.body)
                     except _Brk:
@@ -1542,7 +1542,7 @@ def eval_memoize(wrapper: ast.FunctionDef, verbose: bool, succeeds: bool, args: 
     return tree, end, entry, (st["runs"] - before, t2 == tree, st["pos"] == end), me._level
 
 
-def module_pure_constants(rel: str) -> dict:
+def module_pure_constants(rel: str, extra: Optional[dict] = None, data_attrs: tuple = ()) -> dict:
     """Module-level names bound once to a literal or to `re.compile(<literal>[, flags])` — values a helper may name."""
     import re as _re
     out: dict = {}
@@ -1563,9 +1563,11 @@ def module_pure_constants(rel: str) -> dict:
         # a pure expression over literals, whitelisted builtins and the constants folded so far (`frozenset(TABLE.values())`)
         try:
             from .. import constfold as _cf
-            ver = _cf._Verifier(set(out), set())
+            ver = _cf._Verifier(set(out) | set(extra or {}), set())
+            ver.data_attrs = tuple(data_attrs)
             if ver.ok_expr(val, set()):
                 ns = {"__builtins__": dict(_cf.SAFE_BUILTINS)}
+                ns.update(extra or {})
                 ns.update(out)
                 out[tgt] = eval(compile(ast.fix_missing_locations(ast.Expression(val)), "<module constant>", "eval"), ns)  # noqa: S307
                 continue
